@@ -38,6 +38,11 @@ func c07FamilyA() []c07version {
 		{"A7x-external-test-package", pkgFiles{"a.go": "package m\n\ntype R struct {\n\tA int\n\tB map[string]int\n\tC *R\n}\n\nfunc use2(x []R) []R {\n\treturn deriveClone(x)\n}\n",
 			"x_test.go": "package m_test\n\nvar Sink = 1\n"}},
 		mk("A8-no-derive-calls", "type R struct {\n\tA int\n\tB map[string]int\n\tC *R\n}\n\nfunc use2(x []R) []R {\n\treturn x\n}\n"),
+		// a second call of the same plugin joins the first one on its source line
+		mk("A1b-second-call-on-the-same-line", "type S struct {\n\tA int\n\tB []string\n}\n\ntype S2 struct {\n\tC map[string]int\n}\n\nfunc use(a, b *S, x, y *S2) bool {\n\treturn deriveEqual(a, b) && deriveEqualB(x, y)\n}\n"),
+		// the function a call resolved to is written by hand now: no derive call is left
+		mk("A9-generated-function-now-hand-written", "type S struct {\n\tA int\n\tB []string\n}\n\nfunc use(a, b *S) bool {\n\treturn deriveEqual(a, b)\n}\n\n// written by hand now\nfunc deriveEqual(a, b *S) bool {\n\treturn a == b\n}\n"),
+		{"A9z-generated-function-now-hand-written-in-a-file-sorting-after-derived.gen.go", pkgFiles{"main.go": "package m\n\ntype S struct {\n\tA int\n\tB []string\n}\n\nfunc use(a, b *S) bool {\n\treturn deriveEqual(a, b)\n}\n\n// written by hand now\nfunc deriveEqual(a, b *S) bool {\n\treturn a == b\n}\n"}},
 	}
 }
 
